@@ -31,18 +31,18 @@ type Options struct {
 }
 
 type Stats struct {
-	Events        int            `json:"events"`
-	Blocks        int            `json:"blocks"`
-	Applies       int            `json:"applies"`
-	Undos         int            `json:"undos"`
-	SimTime       int64          `json:"sim_time"`
-	Faults        map[string]int `json:"faults"`
-	Reach         map[string]int `json:"reach"`
-	OracleChecks  map[string]int `json:"oracle_checks"`
-	StateKeys     map[uint64]struct{} `json:"-"`
-	ShapeKeys     map[uint64]struct{} `json:"-"`
-	Foreign       map[string]int `json:"foreign"`
-	Known         map[string]int `json:"known"`
+	Events       int                 `json:"events"`
+	Blocks       int                 `json:"blocks"`
+	Applies      int                 `json:"applies"`
+	Undos        int                 `json:"undos"`
+	SimTime      int64               `json:"sim_time"`
+	Faults       map[string]int      `json:"faults"`
+	Reach        map[string]int      `json:"reach"`
+	OracleChecks map[string]int      `json:"oracle_checks"`
+	StateKeys    map[uint64]struct{} `json:"-"`
+	ShapeKeys    map[uint64]struct{} `json:"-"`
+	Foreign      map[string]int      `json:"foreign"`
+	Known        map[string]int      `json:"known"`
 }
 
 func NewStats() *Stats {
@@ -150,6 +150,17 @@ func (w *World) newLeaf() H {
 		h[i] = byte(x >> (uint(i%8) * 8))
 	}
 	h[31] |= 1 // never the all-zero hash
+	if w.sc.PrefixShare {
+		// distinct hashes that agree in a long prefix (still unique: the counter sits in the tail)
+		x := mix64(w.sc.Seed ^ 0x5ea1)
+		for i := 0; i < 27; i++ {
+			if i%8 == 0 {
+				x = mix64(x)
+			}
+			h[i] = byte(x >> (uint(i%8) * 8))
+		}
+		h[27], h[28], h[29], h[30], h[31] = byte(c>>24), byte(c>>16), byte(c>>8), byte(c), 1
+	}
 	return h
 }
 
